@@ -358,6 +358,55 @@ func runLayerReuse(e *env, lc layerCase) (lone, reused string, herr error) {
 	return lone, reused, nil
 }
 
+// runLayerReuseEngine: the same for the engine object itself - ONE reader.Reader (one NfcSession) serves two reads,
+// each of a freshly presented chip ("calls made one after another: each call returns the result a lone call would
+// have returned").
+func runLayerReuseEngine(e *env, lc layerCase) (lone, reused string, herr error) {
+	cfg := layerConfig(e, lc.Chip)
+	read := func(r *reader.Reader, sw *swapTx, p *perso.Perso) (string, error) {
+		sw.cur = p.Chip
+		pw, err := password.NewPasswordMrz(p.Zone)
+		if err != nil {
+			return "", err
+		}
+		e.resetExecution()
+		e.seqThread = 0
+		return guard("engine", func() string {
+			d, log, rerr := r.ReadDocument(pw, nil, nil)
+			return obsAll(d, rerr) + " " + c20.ObserveApduLog(log)
+		})() + " " + chipDigest(p), nil
+	}
+	mk := func() (*reader.Reader, *swapTx) {
+		sw := &swapTx{}
+		nfc := iso7816.NewNfcSession(sw)
+		if lc.MaxLe > 0 {
+			nfc.SetMaxLe(lc.MaxLe)
+		}
+		r := reader.NewReader(nil, nfc, e.pool())
+		if lc.SkipImages {
+			r.SkipImages()
+		}
+		return r, sw
+	}
+	r0, sw0 := mk()
+	lone, herr = read(r0, sw0, perso.Build(cfg))
+	if herr != nil {
+		return "", "", herr
+	}
+	r, sw := mk()
+	o1, _ := read(r, sw, perso.Build(cfg))
+	o2, _ := read(r, sw, perso.Build(cfg))
+	e.seqThread = -1
+	reused = lone
+	switch {
+	case o1 != lone:
+		reused = "call 1: " + o1
+	case o2 != lone:
+		reused = "call 2: " + o2
+	}
+	return lone, reused, nil
+}
+
 func layerCases(thorough bool) []layerCase {
 	var out []layerCase
 	les := []int{0, 64, 231}
@@ -385,6 +434,9 @@ func layerCases(thorough bool) []layerCase {
 		for _, le := range []int{0, 64} {
 			for _, si := range []bool{false, true} {
 				out = append(out, layerCase{Kind: "reuse", Chip: chip, Password: "mrz", MaxLe: le, SkipImages: si})
+				if le == 0 && !si {
+					out = append(out, layerCase{Kind: "reuse-engine", Chip: chip, Password: "mrz"})
+				}
 			}
 		}
 	}
@@ -397,6 +449,8 @@ func runLayer(e *env, lc layerCase) (key, what, obs string, herr error) {
 		a, b, herr = runLayerVerify(e, lc)
 	} else if lc.Kind == "reuse" {
 		a, b, herr = runLayerReuse(e, lc)
+	} else if lc.Kind == "reuse-engine" {
+		a, b, herr = runLayerReuseEngine(e, lc)
 	} else {
 		a, b, herr = runLayerRead(e, lc)
 	}
@@ -407,6 +461,9 @@ func runLayer(e *env, lc layerCase) (key, what, obs string, herr error) {
 		k := "L0/mobile-binding-differs-from-engine/" + lc.Kind
 		if lc.Kind == "reuse" {
 			k = "L0/reused-mobile-reader-differs-from-lone-call"
+		}
+		if lc.Kind == "reuse-engine" {
+			k = "L0/second-read-on-one-engine-reader-differs-from-lone-call"
 		}
 		return k, fmt.Sprintf("configuration %+v: the mobile binding and the engine object it wraps behave differently\n   engine: %s\n   mobile: %s", lc, a, b), b, nil
 	}
